@@ -22,3 +22,10 @@ package http2
 //
 //@ extend (writePingAck).writeFrame(w, ctx) (err)
 //@   abstractcall WritePing
+
+// writeRequestBody (C09) speaks about WHICH bytes go into DATA frames and how many; the Framer
+// behind cc.fr is abstract there (its byte-level contract, C06, needs an initialised Framer and a
+// payload that does not alias the write buffer, which this unit cannot establish).
+//
+//@ extend (*clientStream).writeRequestBody(cs, req) (err)
+//@   abstractcall WriteData
